@@ -330,3 +330,12 @@ PROPS['C17'] = dict(
     explanation='C17 is assembled from the panic-freedom obligations of every function under contract in the other units (Verus: sketch, policy, api, worker - for all inputs; Kani: the leaf harnesses, '
                 'bit-precise) plus boundary harnesses for TTL arithmetic, shard selection, default weights, the request builder and the smallest sketch sizes.',
 )
+
+PROPS['C06']['verus'] = ['policy', 'sampler']
+PROPS['C06']['kani']['thorough'] = ['cw/add_n3', 'cw/delete_n3', 'cw/sampler_pop_n2', 'cw/sampler_fill_in_n2', 'cw/sampler_no_duplicate_fill_n2', 'ap/maybe_add_n1']
+PROPS['C06']['floor'] = {'quick': 22, 'thorough': 28}
+PROPS['C06']['assumptions'] = [a for a in PROPS['C06']['assumptions'] if not a.startswith('X3')] + [
+    'unit sampler: std BinaryHeap is a max-heap under SampledKey::cmp (pop returns an element no other exceeds), HashSet is a set, DashMap::iter yields every resident exactly once; '
+    'T8: field access through Deref of the map guard (pair.weight) is written pair.value().weight; T9: the for loop over the map iterator is written as the loop it desugars to',
+    'X3 (Kani twins only): std BinaryHeap / HashSet bound to stand-ins']
+PROPS['C06']['explanation'] += ' Unit sampler proves the sampler contract itself without a bound (initial sample, pop, refill).'
